@@ -15,7 +15,9 @@ CHECKS = {
             "and bodies that cannot be rewound (a second attempt ends in UnrewindableBodyError before a connection is taken). "
             "A connection found idle in the pool must have finished its last exchange (answer complete, nothing unread). "
             "Answers include a receive-side OSError that is neither a ConnectionError nor a timeout (before the status line and in mid-body); one retries value has a status budget below the total "
-            "(the first retried status exhausts it while the response still holds its connection).",
+            "(the first retried status exhausts it while the response still holds its connection). "
+            "Responses the caller has finished with stay referenced (nothing may rely on garbage collection). Family dial: the real create_connection over a fake socket module, "
+            "every answer vector (socket/setsockopt/bind/connect failing or succeeding) for a host that resolves to 1-3 addresses: every socket of a failed address is closed.",
             "simnet socket stand-in (close()/makefile() release semantics), stub TLS for https kinds, environment answer menus listed in the evidence; bounds: deviation and depth per pass as recorded.",
             "DESIGN.md §3 C01"),
     "C02": ("model_checking",
@@ -34,7 +36,8 @@ CHECKS = {
             "every byte ever delivered for request i must be a prefix of payload(i); unclean sockets answer with poisoned payloads. "
             "Server behaviours include body tails that arrive late (after the next checkout) and look like responses - partial Content-Length/chunked bodies, "
             "a broken chunk-size line, header block only (200 and 205); caller behaviours include release_conn() followed by close() or by dropping the response. "
-            "Methods include a lower-case 'head' token (an ordinary method with a response body for http.client and the server).",
+            "Methods include a lower-case 'head' token (an ordinary method with a response body for http.client and the server); "
+            "one pool shape passes enforce_content_length=False with every request.",
             "simnet stand-in for sockets and for the readiness poll; alphabet as listed in mc/checks/c03.py.",
             "DESIGN.md §3 C03"),
     "C07": ("exploration",
@@ -43,7 +46,8 @@ CHECKS = {
             "against a recording server; a reference computed from the settings alone says which checks are demanded and whether the presented certificate passes them; "
             "a failed demanded check must leave zero application bytes at the server, raise SSLError and close the socket; unvalidated deliveries must warn exactly once and never report verified. "
             "Issuers: configured CA, unrelated CA, and a CA present only in the (simulated) system default store, against every way of configuring trust. "
-            "Also: the server_hostname override on tunnelled routes, and managers that created a pool for a plain-http origin before the https request.",
+            "Also: the server_hostname override on tunnelled routes, managers that created a pool for a plain-http origin before the https request, "
+            "and a caller context with check_hostname switched on under pyOpenSSL. A failed check of the ORIGIN must surface as SSLError; ProxyError is accepted only for the proxy's own leg.",
             "OpenSSL / pyOpenSSL trusted for the crypto; socketpair transport; reference rules listed in the evidence assumptions; 'either' for CERT_OPTIONAL and for SSLContext/CERT_NONE configuration conflicts.",
             "DESIGN.md §3 C07"),
     "C10": ("exploration",
@@ -60,7 +64,8 @@ CHECKS = {
             "exhaustive enumeration of request-context pairs derived from the constructors' signatures at run time",
             "The keyword universe is read from the current tree's constructor signatures and PoolKey; every ordered pair of call symbols differing in one keyword (and every location spelling pair) is executed on a fresh PoolManager; "
             "a reference identity decides same/distinct/rejected; values are read back from the pool and a freshly built connection; manager defaults are snapshotted after every call. "
-            "Forwarded requests of a ProxyManager (pool to the proxy) are covered by keyword pairs through pool_kwargs.",
+            "Forwarded requests of a ProxyManager (pool to the proxy) are covered by keyword pairs through pool_kwargs. "
+            "Mapping-valued keywords are given as dict and as HTTPHeaderDict; further value pairs differ in ONE component of a structured value (Timeout.total / read / connect, Retry.redirect ...).",
             "no sockets; unknown keyword => harness error (exit 2) so a new keyword cannot pass silently.",
             "DESIGN.md §3 C18"),
     "C12": ("model_checking",
@@ -69,21 +74,22 @@ CHECKS = {
             "(completed by read(7)-until-empty) and every single-API program runs on a fresh real response obtained through HTTPConnection.getresponse(); "
             "the concatenation must equal the reference payload, sized reads never exceed n, nothing after the end, no empty streamed piece, no exception. "
             "Mixed programs leave a stream()/read_chunked() generator suspended after k pieces and let another API read the rest; partial-read-then-.data programs look at .data twice; "
-            "chunked responses also arrive with the coding name spelt Chunked / CHUNKED and with other well-formed chunk lines (whitespace before the extension, upper-case hex, leading zeros).",
+            "chunked responses also arrive with the coding name spelt Chunked / CHUNKED and with other well-formed chunk lines (whitespace before the extension, upper-case hex, leading zeros), and with alias / other-case coding names alone and in stacks (x-gzip, GZIP).",
             "simnet socket stand-in; reference payloads from the gzip/zlib/zstandard one-shot encoders; brotli absent in this image.",
             "DESIGN.md §3 C12"),
     "C13": ("fault_enumeration",
             "exhaustive fault enumeration (every cut, size-line corruption, bit flip, content cut) x read programs through a real pool (simnet), three-valued reference",
             "Every truncation point, every single-byte corruption of each chunk-size line, bit flips at every byte of the compressed stream and every content cut inside intact framing, "
             "each read by every read program (incl. read1() without a size) through a real pool followed by a second request, with the peer closing after the faulty response and with the peer keeping the connection open; "
-            "an independent reference decides bad / either / ok. Broken framing is also read with decode_content=False at the request and at every read call.",
+            "an independent reference decides bad / either / ok. Broken framing is also read with decode_content=False at the request and at every read call. "
+            "Further inputs: a stacked coding whose inner zstd stream is cut inside intact gzip and framing; a damaged size line before a 70000-byte newline-free chunk; chunk sizes >= 2**63.",
             "simnet stand-in; reference chunked de-framer and std decompressobj verdicts in mc/checks/c13.py; 'either' regions documented there.",
             "DESIGN.md §3 C13"),
     "C17": ("model_checking",
             "explicit-state BFS to fixpoint (container, manager) + preemption-bounded schedule exploration of real threads with brute-force linearizability check",
             "(a) BFS to fixpoint over the real RecentlyUsedContainer vs an LRU reference; (b) all interleavings up to the preemption bound of 2-3 real threads doing container operations, "
             "each checked for linearizability, dispose-outside-lock and visible size bound; (c) BFS over PoolManager histories on simnet (LRU order, identity, reclamation of evicted pools); "
-            "(c2) every https-origin sequence up to the depth on PoolManager, ProxyManager (http and https proxy) and proxy_from_url for num_pools 1..3: size bound and LRU order; "
+            "(the manager BFS includes requests answered by a cross-host redirect); (c2) every https-origin sequence up to the depth on PoolManager, ProxyManager (http and https proxy) and proxy_from_url for num_pools 1..3: size bound and LRU order; "
             "(d) all bounded interleavings of racing connection_from_url/clear, each checked for linearizability against a sequential get-or-create cache (returned pools and final cache).",
             "CPython GIL, source-line granularity + lock stand-in operations; SchedRLock checked against threading.RLock at start-up; simnet for sockets.",
             "DESIGN.md §3 C17"),
@@ -180,7 +186,8 @@ CHECKS = {
             "the body must parse under the strict parser into exactly the given fields in order, with WHATWG-escaped names, the data bytes intact, the boundary of the returned content type, and a closing delimiter. "
             "The same field objects encoded a second time must give the same bytes; a caller's HTTPHeaderDict used for two requests must not carry the first boundary into the second; "
             "an empty caller mapping (headers={}) replaces the object's default headers, it does not fall back to them; "
-            "one header dict handed to two RequestFields stays the caller's (unchanged) and each part keeps its own headers.",
+            "one header dict handed to two RequestFields stays the caller's (unchanged) and each part keeps its own headers; "
+            "fields described twice by make_multipart, and field containers that are Mappings but not dicts.",
             "boundaries are read from the returned content type (os.urandom stand-in keeps them deterministic); precondition: boundary does not occur in any supplied string.",
             "DESIGN.md \u00a73 C20"),
 }
